@@ -1,6 +1,8 @@
 (* C17 — MountFS and MultiFS route every call by their documented rule. *)
-From Coq Require Import List NArith ZArith Bool Arith Lia Sorting Permutation.
-From PyFS Require Import Base.PyStr Base.Outcome Path.PathModel Path.PathSpec Route.Route Route.RouteProofs.
+From Coq Require Import List NArith ZArith Bool Arith Lia Permutation Sorting.
+From PyFS Require Import Base.PyStr Base.Outcome Path.PathModel Path.PathSpec FS.Tree FS.Monad FS.Mode FS.Base FS.Mem FS.Ops FS.Ref
+     FS.Agree FS.Wf FS.TreeLemmas FS.RefineLemmas Route.Route Route.RouteProofs Route.Composite Route.CompositeLemmas.
+From PyFS Require Import Route.CompMultiRead Route.CompMultiUnion Route.CompMultiWrite Route.CompMultiWrite2 Route.CompMultiOne Route.CompMount Route.CompMount2 Route.CompMount3 Route.CompositeProofs.
 Import ListNotations.
 
 Theorem C17_key_prefix_components :
@@ -80,10 +82,426 @@ Print Assumptions C17_multi_delegate_none.
 
 Theorem C17_dedup_add_nodup :
   forall seen names, NoDup seen -> NoDup (dedup_add seen names).
-Proof. exact dedup_add_nodup. Qed.
+Proof. exact RouteProofs.dedup_add_nodup. Qed.
 Print Assumptions C17_dedup_add_nodup.
 
 Theorem C17_dedup_add_in :
   forall seen names n, In n (dedup_add seen names) <-> In n seen \/ In n names.
 Proof. exact dedup_add_in. Qed.
 Print Assumptions C17_dedup_add_in.
+
+(* ---- state models of MultiFS and MountFS over the MemoryFS model (Route/Composite*.v), tied to the real classes
+   call by call (outcome and every member tree) on every run ---- *)
+
+(* ---- Route/CompMultiRead.v ---- *)
+Theorem C17_delegate_first_holder : forall st p cs, mwf st = true -> rpath p = inl cs ->
+  delegate_in (order st) p st = Ok (holder st cs).
+Proof. exact delegate_first_holder. Qed.
+Print Assumptions C17_delegate_first_holder.
+
+Theorem C17_delegate_bad_path : forall st p adm, mwf st = true -> st <> [] -> rpath p = inr adm ->
+  delegate_in (order st) p st = Err (bad_err p).
+Proof. exact delegate_bad_path. Qed.
+Print Assumptions C17_delegate_bad_path.
+
+Theorem C17_holder_is_multi_delegate : forall st cs,
+  holder st cs = multi_delegate (members_of st) (fun i => has st i cs).
+Proof. exact holder_is_multi_delegate. Qed.
+Print Assumptions C17_holder_is_multi_delegate.
+
+Theorem C17_holder_highest : forall st cs i ci ti, mwf st = true -> holder st cs = Some i -> nth_error st i = Some (ci, ti) ->
+  has st i cs = true /\
+  forall j cj tj, nth_error st j = Some (cj, tj) -> has st j cs = true -> j = i \/ key_gt (cm ci) (cm cj) = true.
+Proof. exact holder_highest. Qed.
+Print Assumptions C17_holder_highest.
+
+Theorem C17_holder_none : forall st cs, mwf st = true -> (holder st cs = None <-> forall j, j < length st -> has st j cs = false).
+Proof. exact holder_none. Qed.
+Print Assumptions C17_holder_none.
+
+Theorem C17_multi_read_rule : forall o p cs st, mwf st = true -> query_path o = Some p -> rpath p = inl cs ->
+  multi_run o st = (st, match holder st cs with
+                        | Some i => snd (mem_run o (tree_at st i))
+                        | None => notfound o
+                        end).
+Proof. exact multi_read_rule. Qed.
+Print Assumptions C17_multi_read_rule.
+
+Theorem C17_multi_read_bad_path : forall o p adm st, mwf st = true -> st <> [] -> query_path o = Some p -> rpath p = inr adm ->
+  multi_run o st = (st, Err (bad_err p)).
+Proof. exact multi_read_bad_path. Qed.
+Print Assumptions C17_multi_read_bad_path.
+
+Theorem C17_multi_listdir_spec : forall p cs st, mwf st = true -> rpath p = inl cs ->
+  multi_run (OListdir p) st = (st, listing_of st cs (fun ids => VNames (dedup_add [] (concat (map (dir_keys st cs) ids))))).
+Proof. exact multi_listdir_spec. Qed.
+Print Assumptions C17_multi_listdir_spec.
+
+Theorem C17_multi_scandir_spec : forall p cs st, mwf st = true -> rpath p = inl cs ->
+  multi_run (OScandir p) st = (st, listing_of st cs (fun ids => VInfos (dedup_infos [] (concat (map (dir_infos st cs) ids))))).
+Proof. exact multi_scandir_spec. Qed.
+Print Assumptions C17_multi_scandir_spec.
+
+Theorem C17_multi_isempty_spec : forall p cs st, mwf st = true -> rpath p = inl cs ->
+  multi_run (OIsempty p) st = (st, listing_of st cs (fun ids => VBool (match concat (map (dir_infos st cs) ids) with [] => true | _ => false end))).
+Proof. exact multi_isempty_spec. Qed.
+Print Assumptions C17_multi_isempty_spec.
+
+Theorem C17_multi_listdir_nodup_complete : forall p cs st l, mwf st = true -> rpath p = inl cs ->
+  snd (multi_run (OListdir p) st) = Ok (VNames l) ->
+  NoDup l /\ forall n, In n l <-> exists j, In j (order st) /\ In n (dir_keys st cs j).
+Proof. exact multi_listdir_nodup_complete. Qed.
+Print Assumptions C17_multi_listdir_nodup_complete.
+
+Theorem C17_multi_scandir_page_slice : forall p s e st,
+  multi_scandir_page p (Some (s, e)) st = (st, omap (fun l => firstn (e - s) (skipn s l)) (snd (multi_scandir p st))).
+Proof. exact multi_scandir_page_slice. Qed.
+Print Assumptions C17_multi_scandir_page_slice.
+
+Theorem C17_lookup_union2 : forall hi lo cs, wf_node hi -> wf_node lo -> compat hi lo = true ->
+  lookup (union2 hi lo) cs =
+  match lookup hi cs, lookup lo cs with
+  | Some h, Some l => Some (union2 h l)
+  | Some h, None => Some h
+  | None, o => o
+  end.
+Proof. exact lookup_union2. Qed.
+Print Assumptions C17_lookup_union2.
+
+Theorem C17_multi_read_is_union : forall o p cs st a b, mwf st = true -> order st = [a; b] ->
+  compat (tree_at st a) (tree_at st b) = true -> query_path o = Some p -> rpath p = inl cs ->
+  snd (multi_run o st) = snd (mem_run o (union st)).
+Proof. exact multi_read_is_union. Qed.
+Print Assumptions C17_multi_read_is_union.
+
+(* ---- Route/CompMultiUnion.v ---- *)
+Theorem C17_lookup_union_list_first : forall ts cs, pairwise compat ts = true -> Forall (fun t => is_dir t = true) ts ->
+  ts <> [] \/ cs <> [] ->
+  match find (fun t => match lookup t cs with Some _ => true | None => false end) ts with
+  | None => lookup (union_list ts) cs = None
+  | Some t => match lookup t cs with
+              | Some (File d m) => lookup (union_list ts) cs = Some (File d m)
+              | Some (Dir _ m) => exists ents, lookup (union_list ts) cs = Some (Dir ents m)
+              | None => False
+              end
+  end.
+Proof. exact lookup_union_list_first. Qed.
+Print Assumptions C17_lookup_union_list_first.
+
+Theorem C17_multi_read_is_union_all : forall o p cs st, mwf st = true -> st <> [] ->
+  pairwise compat (map (tree_at st) (order st)) = true -> Forall (fun t => is_dir t = true) (map (tree_at st) (order st)) ->
+  query_path o = Some p -> rpath p = inl cs ->
+  multi_run o st = (st, snd (mem_run o (union st))).
+Proof. exact multi_read_is_union_all. Qed.
+Print Assumptions C17_multi_read_is_union_all.
+
+Theorem C17_multi_read_refines_union : forall o p cs st, mwf st = true -> st <> [] ->
+  pairwise compat (map (tree_at st) (order st)) = true -> Forall (fun t => is_dir t = true) (map (tree_at st) (order st)) ->
+  query_path o = Some p -> rpath p = inl cs -> wf (union st) ->
+  res_agree (snd (multi_run o st)) (rs_res (ref_run o (union st))) = true.
+Proof. exact multi_read_refines_union. Qed.
+Print Assumptions C17_multi_read_refines_union.
+
+Theorem C17_multi_listdir_is_union : forall p cs st, mwf st = true -> st <> [] ->
+  pairwise compat (map (tree_at st) (order st)) = true -> Forall (fun t => is_dir t = true) (map (tree_at st) (order st)) ->
+  rpath p = inl cs -> Forall wf_node (map (tree_at st) (order st)) ->
+  multi_run (OListdir p) st = (st, snd (mem_run (OListdir p) (union st))).
+Proof. exact multi_listdir_is_union. Qed.
+Print Assumptions C17_multi_listdir_is_union.
+
+Theorem C17_multi_isempty_is_union : forall p cs st, mwf st = true -> st <> [] ->
+  pairwise compat (map (tree_at st) (order st)) = true -> Forall (fun t => is_dir t = true) (map (tree_at st) (order st)) ->
+  rpath p = inl cs -> Forall wf_node (map (tree_at st) (order st)) ->
+  multi_run (OIsempty p) st = (st, snd (mem_run (OIsempty p) (union st))).
+Proof. exact multi_isempty_is_union. Qed.
+Print Assumptions C17_multi_isempty_is_union.
+
+(* ---- Route/CompMultiWrite.v ---- *)
+Theorem C17_multi_direct_write : forall o st w, write_index st = Some w -> direct_write o = true ->
+  multi_run o st = on_nth w (mem_run o) st.
+Proof. exact multi_direct_write. Qed.
+Print Assumptions C17_multi_direct_write.
+
+Theorem C17_multi_readonly : forall o st, write_index st = None -> direct_write o = true ->
+  multi_run o st = (st, Err ResourceReadOnly).
+Proof. exact multi_readonly. Qed.
+Print Assumptions C17_multi_readonly.
+
+Theorem C17_multi_remove_first_holder : forall p cs st, mwf st = true -> rpath p = inl cs ->
+  multi_run (ORemove p) st = match holder st cs with
+                             | Some i => on_nth i (mem_run (ORemove p)) st
+                             | None => (st, Err ResourceNotFound)
+                             end.
+Proof. exact multi_remove_first_holder. Qed.
+Print Assumptions C17_multi_remove_first_holder.
+
+Theorem C17_multi_removedir_first_holder : forall p cs st, mwf st = true -> rpath p = inl cs ->
+  multi_run (ORemovedir p) st = match holder st cs with
+                                | Some i => on_nth i (mem_run (ORemovedir p)) st
+                                | None => (st, Err ResourceNotFound)
+                                end.
+Proof. exact multi_removedir_first_holder. Qed.
+Print Assumptions C17_multi_removedir_first_holder.
+
+Theorem C17_multi_create_alone : forall p cs wipe st w, mwf st = true -> write_index st = Some w -> rpath p = inl cs ->
+  (forall i, i <> w -> has st i cs = false) ->
+  multi_run (OCreate p wipe) st = on_nth w (mem_run (OCreate p wipe)) st.
+Proof. exact multi_create_alone. Qed.
+Print Assumptions C17_multi_create_alone.
+
+Theorem C17_multi_touch_alone : forall p cs st w, mwf st = true -> write_index st = Some w -> rpath p = inl cs ->
+  (forall i, i <> w -> has st i cs = false) ->
+  multi_run (OTouch p) st = on_nth w (mem_run (OTouch p)) st.
+Proof. exact multi_touch_alone. Qed.
+Print Assumptions C17_multi_touch_alone.
+
+Theorem C17_multi_setinfo_lower_only : forall p cs mt st w, write_index st = Some w -> w < length st -> rpath p = inl cs ->
+  has st w cs = false -> multi_run (OSetinfo p mt) st = (st, Err ResourceNotFound).
+Proof. exact multi_setinfo_lower_only. Qed.
+Print Assumptions C17_multi_setinfo_lower_only.
+
+Theorem C17_multi_touch_lower_only : forall p cs st w i, mwf st = true -> write_index st = Some w -> rpath p = inl cs ->
+  holder st cs = Some i -> has st w cs = false -> multi_run (OTouch p) st = (st, Err ResourceNotFound).
+Proof. exact multi_touch_lower_only. Qed.
+Print Assumptions C17_multi_touch_lower_only.
+
+Theorem C17_multi_makedir_parent_lower_only : forall p d c r st w, write_index st = Some w -> w < length st ->
+  rpath p = inl (d ++ [c]) -> lookup (tree_at st w) d = None ->
+  multi_run (OMakedir p r) st = (st, Err ResourceNotFound).
+Proof. exact multi_makedir_parent_lower_only. Qed.
+Print Assumptions C17_multi_makedir_parent_lower_only.
+
+Theorem C17_multi_frame : forall o st, removing o = false -> frame_but (write_index st) st (fst (multi_run o st)).
+Proof. exact multi_frame. Qed.
+Print Assumptions C17_multi_frame.
+
+Theorem C17_multi_no_write_member_unchanged : forall o st, write_index st = None -> removing o = false ->
+  map snd (fst (multi_run o st)) = map snd st.
+Proof. exact multi_no_write_member_unchanged. Qed.
+Print Assumptions C17_multi_no_write_member_unchanged.
+
+(* ---- Route/CompMultiWrite2.v ---- *)
+Theorem C17_multi_remove_frame : forall p cs st, mwf st = true -> rpath p = inl cs ->
+  frame_but (holder st cs) st (fst (multi_run (ORemove p) st)).
+Proof. exact multi_remove_frame. Qed.
+Print Assumptions C17_multi_remove_frame.
+
+Theorem C17_multi_removedir_frame : forall p cs st, mwf st = true -> rpath p = inl cs ->
+  frame_but (holder st cs) st (fst (multi_run (ORemovedir p) st)).
+Proof. exact multi_removedir_frame. Qed.
+Print Assumptions C17_multi_removedir_frame.
+
+Theorem C17_multi_copy_alone : forall s d ov pt cs cd st w, mwf st = true -> write_index st = Some w ->
+  rpath s = inl cs -> rpath d = inl cd ->
+  (forall i, i <> w -> has st i cs = false /\ has st i cd = false) ->
+  multi_run (OCopy s d ov pt) st = on_nth w (mem_run (OCopy s d ov pt)) st.
+Proof. exact multi_copy_alone. Qed.
+Print Assumptions C17_multi_copy_alone.
+
+Theorem C17_multi_move_alone : forall s d ov pt cs cd st w, mwf st = true -> write_index st = Some w ->
+  rpath s = inl cs -> rpath d = inl cd ->
+  (forall i, i <> w -> has st i cs = false /\ has st i cd = false) ->
+  multi_run (OMove s d ov pt) st = on_nth w (vmap (fun _ => VUnit) (b_move mem_low s d ov pt)) st.
+Proof. exact multi_move_alone. Qed.
+Print Assumptions C17_multi_move_alone.
+
+Theorem C17_multi_copy_up : forall s d pt cs cd st w i data mt, mwf st = true -> write_index st = Some w -> w <> i ->
+  rpath s = inl cs -> rpath d = inl cd -> cd <> [] -> cs <> [] -> path_eqb cs cd = false ->
+  holder st cs = Some i -> lookup (tree_at st i) cs = Some (File data mt) ->
+  wf (tree_at st w) ->
+  (exists ents m, lookup (tree_at st w) (removelast cd) = Some (Dir ents m)) ->
+  (match lookup (tree_at st w) cd with Some (Dir _ _) => False | _ => True end) ->
+  let r := multi_run (OCopy s d true pt) st in
+  snd r = Ok VUnit /\ (exists m', lookup (tree_at (fst r) w) cd = Some (File data m')) /\
+  (forall k, k <> w -> tree_at (fst r) k = tree_at st k).
+Proof. exact multi_copy_up. Qed.
+Print Assumptions C17_multi_copy_up.
+
+Theorem C17_multi_same_members : forall o st, same_members st (fst (multi_run o st)).
+Proof. exact multi_same_members. Qed.
+Print Assumptions C17_multi_same_members.
+
+(* ---- Route/CompMultiOne.v ---- *)
+Theorem C17_multi_one_refines : forall o c t, cm_write c = true -> m_id (cm c) = 0 -> wf t -> one_exact o = true ->
+  multi_run o [(c, t)] = lift1 c (mem_run o t).
+Proof. exact multi_one_refines. Qed.
+Print Assumptions C17_multi_one_refines.
+
+Theorem C17_multi_one_refines_ref : forall o c t, cm_write c = true -> m_id (cm c) = 0 -> wf t -> one_exact o = true -> covered o = true ->
+  agree (tree_at (fst (multi_run o [(c, t)])) 0, snd (multi_run o [(c, t)])) (ref_run o t) = true.
+Proof. exact multi_one_refines_ref. Qed.
+Print Assumptions C17_multi_one_refines_ref.
+
+Theorem C17_multi_one_removetree_leaf : forall p c t, cm_write c = true -> m_id (cm c) = 0 -> wf t ->
+  removetree_leaf p t = true ->
+  multi_run (ORemovetree p) [(c, t)] = lift1 c (mem_run (ORemovetree p) t).
+Proof. exact multi_one_removetree_leaf. Qed.
+Print Assumptions C17_multi_one_removetree_leaf.
+
+(* ---- Route/CompMount.v ---- *)
+Theorem C17_mount_delegation : forall o p st i rel, mount_direct o = Some p ->
+  mount_delegate (mounts_of st) p = Ok (Some (i, rel)) ->
+  mount_run o st = on_mount i (mem_run (with_path o rel)) st.
+Proof. exact mount_delegation. Qed.
+Print Assumptions C17_mount_delegation.
+
+Theorem C17_mount_default : forall o p st, mount_direct o = Some p -> mount_delegate (mounts_of st) p = Ok None ->
+  mount_run o st = on_default (mem_run o) st.
+Proof. exact mount_default. Qed.
+Print Assumptions C17_mount_default.
+
+Theorem C17_mount_bad_path : forall o p st e, mount_direct o = Some p -> mount_delegate (mounts_of st) p = Err e ->
+  mount_run o st = (st, Err e).
+Proof. exact mount_bad_path. Qed.
+Print Assumptions C17_mount_bad_path.
+
+Theorem C17_mount_getinfo_member : forall p st i rel, mount_delegate (mounts_of st) p = Ok (Some (i, rel)) ->
+  mount_run (OGetinfo p) st = on_mount i (vmap (fun x => VInfo (mount_point_name p rel x)) (mem_getinfo rel)) st.
+Proof. exact mount_getinfo_member. Qed.
+Print Assumptions C17_mount_getinfo_member.
+
+Theorem C17_mount_getinfo_default : forall p st, mount_delegate (mounts_of st) p = Ok None ->
+  mount_run (OGetinfo p) st = on_default (mem_run (OGetinfo p)) st.
+Proof. exact mount_getinfo_default. Qed.
+Print Assumptions C17_mount_getinfo_default.
+
+Theorem C17_mount_getinfo_bad_path : forall p st e, mount_delegate (mounts_of st) p = Err e -> mount_run (OGetinfo p) st = (st, Err e).
+Proof. exact mount_getinfo_bad_path. Qed.
+Print Assumptions C17_mount_getinfo_bad_path.
+
+Theorem C17_mount_point_name_spec : forall p cs rel x, resolve (comps p) = Some cs -> cs <> [] ->
+  (is_empty rel || str_eqb rel s_slash) = true ->
+  mount_point_name p rel x = rename_info x (last cs []).
+Proof. exact mount_point_name_spec. Qed.
+Print Assumptions C17_mount_point_name_spec.
+
+Theorem C17_mount_point_name_below : forall p rel x, (is_empty rel || str_eqb rel s_slash) = false -> mount_point_name p rel x = x.
+Proof. exact mount_point_name_below. Qed.
+Print Assumptions C17_mount_point_name_below.
+
+Theorem C17_mount_frame_member : forall o p st i rel, mount_direct o = Some p ->
+  mount_delegate (mounts_of st) p = Ok (Some (i, rel)) ->
+  t_default (fst (mount_run o st)) = t_default st /\
+  map fst (t_mounts (fst (mount_run o st))) = map fst (t_mounts st) /\
+  forall j, j <> i -> mount_tree (fst (mount_run o st)) j = mount_tree st j.
+Proof. exact mount_frame_member. Qed.
+Print Assumptions C17_mount_frame_member.
+
+Theorem C17_mount_frame_default : forall o p st, mount_direct o = Some p -> mount_delegate (mounts_of st) p = Ok None ->
+  t_mounts (fst (mount_run o st)) = t_mounts st.
+Proof. exact mount_frame_default. Qed.
+Print Assumptions C17_mount_frame_default.
+
+Theorem C17_mount_removedir_root : forall p n st, normpath p = Ok n -> (is_empty n || str_eqb n s_slash) = true ->
+  mount_run (ORemovedir p) st = (st, Err RemoveRootError).
+Proof. exact mount_removedir_root. Qed.
+Print Assumptions C17_mount_removedir_root.
+
+Theorem C17_mount_removedir_delegation : forall p n st i rel, normpath p = Ok n -> (is_empty n || str_eqb n s_slash) = false ->
+  mount_delegate (mounts_of st) n = Ok (Some (i, rel)) ->
+  mount_run (ORemovedir p) st = on_mount i (mem_run (ORemovedir rel)) st.
+Proof. exact mount_removedir_delegation. Qed.
+Print Assumptions C17_mount_removedir_delegation.
+
+Theorem C17_mount_point_is_dir : forall path t st st', mount_mount path t st = (st', Ok tt) ->
+  exists k, mount_key path = Ok k /\ t_mounts st' = t_mounts st ++ [(k, t)] /\ snd (mem_isdir k (t_default st')) = Ok true.
+Proof. exact mount_point_is_dir. Qed.
+Print Assumptions C17_mount_point_is_dir.
+
+Theorem C17_mount_refused_inside : forall path t st k, mount_key path = Ok k -> mount_overlaps (mounts_of st) k = true ->
+  mount_mount path t st = (st, Crash OtherException).
+Proof. exact mount_refused_inside. Qed.
+Print Assumptions C17_mount_refused_inside.
+
+Theorem C17_mount_refused_inside_components : forall path t st (mcs : list (list str)) cs,
+  map fst (t_mounts st) = map key_of mcs -> Forall (Forall good) mcs -> resolve (comps path) = Some cs ->
+  existsb (fun mc => cprefix mc cs) mcs = true -> mount_mount path t st = (st, Crash OtherException).
+Proof. exact mount_refused_inside_components. Qed.
+Print Assumptions C17_mount_refused_inside_components.
+
+Theorem C17_mount_route_member : forall o p st (mcs : list (list str)) cs, mount_direct o = Some p ->
+  map fst (t_mounts st) = map key_of mcs -> Forall (Forall good) mcs -> resolve (comps p) = Some cs ->
+  mount_run o st =
+  match route_spec (List.combine mcs (seq 0 (length mcs))) cs with
+  | Some (i, rest) => on_mount i (mem_run (with_path o (to_path false rest))) st
+  | None => on_default (mem_run o) st
+  end.
+Proof. exact mount_route_member. Qed.
+Print Assumptions C17_mount_route_member.
+
+Theorem C17_mount_delegation_derived : forall o p st i rel, mount_derived o = Some p ->
+  mount_delegate (mounts_of st) p = Ok (Some (i, rel)) -> i < length (t_mounts st) ->
+  mount_run o st = on_mount i (mem_run (with_path o rel)) st.
+Proof. exact mount_delegation_derived. Qed.
+Print Assumptions C17_mount_delegation_derived.
+
+Theorem C17_mount_default_derived : forall o p st, mount_derived o = Some p -> mount_delegate (mounts_of st) p = Ok None ->
+  mount_run o st = on_default (mem_run o) st.
+Proof. exact mount_default_derived. Qed.
+Print Assumptions C17_mount_default_derived.
+
+Theorem C17_mount_copy_within : forall s d ov pt st i rs rd, mount_keys_ok st = true -> i < length (t_mounts st) ->
+  mount_delegate (mounts_of st) s = Ok (Some (i, rs)) -> mount_delegate (mounts_of st) d = Ok (Some (i, rd)) ->
+  mount_run (OCopy s d ov pt) st = on_mount i (mem_run (OCopy rs rd ov pt)) st.
+Proof. exact mount_copy_within. Qed.
+Print Assumptions C17_mount_copy_within.
+
+(* ---- Route/CompMount2.v ---- *)
+Theorem C17_mount_move_within : forall s d ov pt st i rs rd, mount_keys_ok st = true -> i < length (t_mounts st) ->
+  mount_delegate (mounts_of st) s = Ok (Some (i, rs)) -> mount_delegate (mounts_of st) d = Ok (Some (i, rd)) ->
+  mount_run (OMove s d ov pt) st = on_mount i (vmap (fun _ => VUnit) (b_move mem_low rs rd ov pt)) st.
+Proof. exact mount_move_within. Qed.
+Print Assumptions C17_mount_move_within.
+
+Theorem C17_mount_frame_within : forall o s d ov pt st i rs rd, (o = OMove s d ov pt \/ o = OCopy s d ov pt) ->
+  mount_keys_ok st = true -> i < length (t_mounts st) ->
+  mount_delegate (mounts_of st) s = Ok (Some (i, rs)) -> mount_delegate (mounts_of st) d = Ok (Some (i, rd)) ->
+  t_default (fst (mount_run o st)) = t_default st /\ map fst (t_mounts (fst (mount_run o st))) = map fst (t_mounts st) /\
+  forall j, j <> i -> mount_tree (fst (mount_run o st)) j = mount_tree st j.
+Proof. exact mount_frame_within. Qed.
+Print Assumptions C17_mount_frame_within.
+
+Theorem C17_mount_copy_across : forall s d ov pt st i j rs rd cs cd data mt, mount_keys_ok st = true ->
+  i < List.length (t_mounts st) -> j < List.length (t_mounts st) -> i <> j ->
+  mount_delegate (mounts_of st) s = Ok (Some (i, rs)) -> mount_delegate (mounts_of st) d = Ok (Some (j, rd)) ->
+  rpath rs = inl cs -> rpath rd = inl cd -> wf (mount_tree st i) -> wf (mount_tree st j) ->
+  lookup (mount_tree st i) cs = Some (File data mt) ->
+  cd <> [] -> (exists ents m, lookup (mount_tree st j) (removelast cd) = Some (Dir ents m)) ->
+  (match lookup (mount_tree st j) cd with None => True | Some (File _ _) => ov = true | Some (Dir _ _) => False end) ->
+  let r := mount_run (OCopy s d ov pt) st in
+  snd r = Ok VUnit /\
+  (exists m', lookup (mount_tree (fst r) j) cd = Some (File data m')) /\
+  mount_tree (fst r) i = mount_tree st i /\ t_default (fst r) = t_default st /\
+  (forall k, k <> j -> mount_tree (fst r) k = mount_tree st k) /\
+  (forall q, list_prefix cd q = false -> list_prefix q cd = false ->
+             lookup (mount_tree (fst r) j) q = lookup (mount_tree st j) q).
+Proof. exact mount_copy_across. Qed.
+Print Assumptions C17_mount_copy_across.
+
+Theorem C17_mount_move_across : forall s d ov pt st i j rs rd cs cd data mt, mount_keys_ok st = true ->
+  i < List.length (t_mounts st) -> j < List.length (t_mounts st) -> i <> j ->
+  mount_delegate (mounts_of st) s = Ok (Some (i, rs)) -> mount_delegate (mounts_of st) d = Ok (Some (j, rd)) ->
+  rpath rs = inl cs -> rpath rd = inl cd -> wf (mount_tree st i) -> wf (mount_tree st j) ->
+  lookup (mount_tree st i) cs = Some (File data mt) ->
+  cd <> [] -> (exists ents m, lookup (mount_tree st j) (removelast cd) = Some (Dir ents m)) ->
+  (match lookup (mount_tree st j) cd with None => True | Some (File _ _) => ov = true | Some (Dir _ _) => False end) ->
+  let r := mount_run (OMove s d ov pt) st in
+  snd r = Ok VUnit /\ (exists m', lookup (mount_tree (fst r) j) cd = Some (File data m')) /\
+  lookup (mount_tree (fst r) i) cs = None /\ t_default (fst r) = t_default st /\
+  (forall k, k <> j -> k <> i -> mount_tree (fst r) k = mount_tree st k).
+Proof. exact mount_move_across. Qed.
+Print Assumptions C17_mount_move_across.
+
+(* ---- Route/CompMount3.v ---- *)
+Theorem C17_mount_query_pure : forall o st, mount_query o = true -> fst (mount_run o st) = st.
+Proof. exact mount_query_pure. Qed.
+Print Assumptions C17_mount_query_pure.
+
+Theorem C17_multi_query_pure : forall o st, mount_query o = true -> fst (multi_run o st) = st.
+Proof. exact multi_query_pure. Qed.
+Print Assumptions C17_multi_query_pure.
+
+Theorem C17_mount_same_keys : forall o st, map fst (t_mounts (fst (mount_run o st))) = map fst (t_mounts st).
+Proof. exact mount_same_keys. Qed.
+Print Assumptions C17_mount_same_keys.
+
